@@ -359,6 +359,101 @@ func checkC17(c *Ctx, r *Report) {
 			call, _ := v.(*ssa.Call)
 			return call != nil && calleeKey(call) == "builtin.len" && derivesFrom(call.Call.Args[0], func(x ssa.Value) bool { f, _ := loadOfField(x); return f != nil && f.Name() == "ObservedBy" })
 		}, func(v ssa.Value) bool { return isParamVar(c, v, "minObservers") }, ordLT), nil)
+		// ... and the converse: a set that has exactly the threshold (or more) is kept
+		{
+			isLenObs := func(v ssa.Value) bool {
+				call, _ := strip2(v).(*ssa.Call)
+				return call != nil && calleeKey(call) == "builtin.len" && derivesFrom(call.Call.Args[0], func(x ssa.Value) bool { f, _ := loadOfField(x); return f != nil && f.Name() == "ObservedBy" })
+			}
+			isMin := func(v ssa.Value) bool {
+				v = resolveLoad(strip2(v))
+				return v == ssa.Value(f.Params[2]) || isParamCellLoad(c, v, f.Params[2])
+			}
+			nT := 0
+			for _, b := range blocksDeep(f) {
+				ifi := ifOf(b)
+				if ifi == nil {
+					continue
+				}
+				tab := condTable(ifi.Cond, isLenObs, isMin)
+				if tab[ordLT] == triUnknown || tab[ordEQ] == triUnknown || tab[ordGT] == triUnknown {
+					continue
+				}
+				nT++
+				h := iterationOf(b.Parent(), b)
+				for _, o := range []ordering{ordEQ, ordGT} {
+					si := 1
+					if tab[o] == triTrue {
+						si = 0
+					}
+					w, n := (&Cut{Fn: b.Parent(), FromEdges: []CFGEdge{{b, si}}, Sep: inSet(apps), Target: func(in ssa.Instruction) bool {
+						return isRetInstr(in) || (h != nil && in.Block() == h && instrIndex(in) == 0)
+					}}).Run(c)
+					r4.Check(w == "", "getTopExternalAddrs: a set observed by "+map[ordering]string{ordEQ: "exactly", ordGT: "more than"}[o]+" the threshold is kept", instrPos(ifi), n+1, "", "an address with the required number of observers is not reported", w)
+				}
+			}
+			if nT == 0 {
+				r4.OK("getTopExternalAddrs: a set that reaches the threshold is kept", f.Pos(), 1, "not decided: no comparison of len(ObservedBy) with the threshold parameter recognised")
+			}
+		}
+		// most-observed first: the comparator answers the difference of the counts whenever they differ
+		for _, call := range callsIn(f, "slices.SortFunc") {
+			g := installedFunc(callArgs(call)[1])
+			if g == nil || g.Blocks == nil || len(g.Params) != 2 {
+				r4.OK("getTopExternalAddrs: comparator orders by observer count, larger first", instrPos(call.(ssa.Instruction)), 1, "not decided: comparator not resolved")
+				continue
+			}
+			lenOf := func(v ssa.Value, p *ssa.Parameter) bool {
+				call, _ := resolveLoad(strip2(v)).(*ssa.Call)
+				if call == nil || calleeKey(call) != "builtin.len" {
+					return false
+				}
+				fl, base := loadOfField(resolveLoad(strip2(call.Call.Args[0])))
+				if fl == nil || fl.Name() != "ObservedBy" {
+					return false
+				}
+				base = resolveLoad(strip2(base))
+				return base == ssa.Value(p) || isParamCellLoad(c, base, p)
+			}
+			isDiff := func(v ssa.Value) bool {
+				bo, ok := resolveLoad(strip2(v)).(*ssa.BinOp)
+				return ok && bo.Op == token.SUB && lenOf(bo.X, g.Params[1]) && lenOf(bo.Y, g.Params[0])
+			}
+			differ := eqEdge(isDiff, func(v ssa.Value) bool { k, ok := constInt(v); return ok && k == 0 }, false)
+			var from []CFGEdge
+			for _, b := range blocksDeep(g) {
+				for si := range b.Succs {
+					if differ(b, si) {
+						from = append(from, CFGEdge{b, si})
+					}
+				}
+			}
+			hasDiff := false
+			allInstrs(g, func(in ssa.Instruction) {
+				if v, ok := in.(ssa.Value); ok && isDiff(v) {
+					hasDiff = true
+				}
+			})
+			if !hasDiff {
+				r4.OK("getTopExternalAddrs: comparator orders by observer count, larger first", g.Pos(), 1, "not decided: the comparator does not compute len(b.ObservedBy) - len(a.ObservedBy)")
+				continue
+			}
+			if len(from) == 0 {
+				r4.Fail("getTopExternalAddrs: comparator answers len(b.ObservedBy) - len(a.ObservedBy) whenever the counts differ", g.Pos(), "the difference of the counts is computed but decides nothing", "")
+				continue
+			}
+			var good []ssa.Instruction
+			for _, ret := range returnsOf(g) {
+				if isDiff(retVal(ret, 0)) {
+					good = append(good, ret)
+				}
+			}
+			w, n := (&Cut{Fn: g, FromEdges: from, Target: func(in ssa.Instruction) bool {
+				ret, ok := in.(*ssa.Return)
+				return ok && !isDiff(retVal(ret, 0))
+			}}).Run(c)
+			r4.Check(w == "" && len(good) >= 1, "getTopExternalAddrs: comparator answers len(b.ObservedBy) - len(a.ObservedBy) whenever the counts differ", g.Pos(), n+1, "", "the most-observed address is no longer first: the three reported are not the best three", w)
+		}
 		capOK := constIntObj(c, oaP, "maxExternalThinWaistAddrsPerLocalAddr") == 3
 		capC := constIntObj(c, oaP, "maxExternalThinWaistAddrsPerLocalAddr")
 		for _, ret := range returnsOf(f) {
@@ -367,6 +462,42 @@ func checkC17(c *Ctx, r *Report) {
 		}
 		// most-observed first: sorted before slicing
 		r4.Check(len(callsIn(f, "slices.SortFunc")) == 1, "getTopExternalAddrs: sorted before truncation", f.Pos(), 1, "", "", "")
+	}
+	if f := r4.need(oaP + ".isRelayedAddress"); f != nil {
+		circuit := constIntObj(c, "github.com/multiformats/go-multiaddr", "P_CIRCUIT")
+		isCode := func(v ssa.Value) bool {
+			call, _ := resolveLoad(strip2(v)).(*ssa.Call)
+			return call != nil && !call.Call.IsInvoke() && call.Call.StaticCallee() != nil && call.Call.StaticCallee().Name() == "Code"
+		}
+		isCirc := func(v ssa.Value) bool { k, ok := constInt(v); return ok && k == circuit }
+		hit := eqEdge(isCode, isCirc, true)
+		var trues, falses []ssa.Instruction
+		for _, ret := range returnsOf(f) {
+			if b, ok := constBool(resolveLoad(strip(retVal(ret, 0)))); ok {
+				if b {
+					trues = append(trues, ret)
+				} else {
+					falses = append(falses, ret)
+				}
+			}
+		}
+		if len(trues)+len(falses) < len(returnsOf(f)) {
+			r4.OK("isRelayedAddress: true exactly for an address with a p2p-circuit component", f.Pos(), 1, "not decided: the answers are not constants")
+		} else if len(trues) == 0 || len(falses) == 0 {
+			r4.Fail("isRelayedAddress: true exactly for an address with a p2p-circuit component", f.Pos(), "the function answers the same constant on every path", "")
+		} else {
+			r4.guard(f, "answer true", trues, "a component is p2p-circuit", hit, nil)
+			var from []CFGEdge
+			for _, b := range blocksDeep(f) {
+				for si := range b.Succs {
+					if hit(b, si) {
+						from = append(from, CFGEdge{b, si})
+					}
+				}
+			}
+			w, n := (&Cut{Fn: f, FromEdges: from, Target: inSet(falses)}).Run(c)
+			r4.Check(w == "" && len(from) >= 1, "isRelayedAddress: an address with a p2p-circuit component is answered true", f.Pos(), n+1, "", "observations made over a relay count as observations of this host", w)
+		}
 	}
 	isThresh := func(v ssa.Value) bool {
 		u, ok := strip2(v).(*ssa.UnOp)
